@@ -195,6 +195,34 @@ def run_cfg(arg):
                         {'cfg': cfg, 'key': key, 'position': p, 'removed': list(r), 'added': list(x)}))
         router.removeDestination(tuple(x))
         router.addDestination(tuple(r))
+    # membership requests the router may refuse (same server and instance under another port: a duplicate add, a removal
+    # naming the wrong port): whether it refuses or obeys, it must stay consistent with its own account of what is configured
+    for r in cfg['dests'][:2]:
+      other = (r[0], r[1] + 7, r[2])
+      for opname, op in (('addDestination', router.addDestination), ('removeDestination', router.removeDestination)):
+        try:
+          op(other)
+          outcome = 'accepted'
+        except Exception as e:   # noqa
+          outcome = 'refused (%s)' % (str(e)[:60],)
+        now = [d for d in cfg['dests'] if router.hasDestination(tuple(d))]
+        sub = dict(cfg, dests=[d if tuple(d) != tuple(r) or opname != 'addDestination' or outcome != 'accepted' else list(other) for d in now])
+        for p in bpts[::3]:
+          key = table[p]
+          v = check_one(sub, router, key) if now else None
+          n += 1
+          if v is not None and v[0] != 'unconfigured' and len(bad) < 3:
+            bad.append((v[0] + ':after-refusable-request', '%s (after %s(%r) was %s; the router reports %d destinations configured)' % (
+              v[1], opname, other, outcome, len(now)), {'cfg': cfg, 'key': key, 'position': p, 'request': [opname, list(other)]}))
+        # restore the configuration
+        if not router.hasDestination(tuple(r)):
+          try:
+            router.addDestination(tuple(r))
+          except Exception:   # noqa
+            pass
+        elif outcome == 'accepted' and opname == 'addDestination':
+          router.removeDestination(other)
+          router.addDestination(tuple(r))
   return n, len(shapes), bad
 
 
@@ -310,6 +338,14 @@ def replay(path):
     router.removeDestination(tuple(rep['removed']))
     router.addDestination(tuple(rep['added']))
     cfg = dict(cfg, dests=[d for d in cfg['dests'] if d != tuple(rep['removed'])] + [tuple(rep['added'])])
+  elif rep.get('request'):
+    opname, other = rep['request']
+    try:
+      getattr(router, opname)(tuple(other))
+      print('%s(%r) accepted' % (opname, tuple(other)))
+    except Exception as e:   # noqa
+      print('%s(%r) refused: %s' % (opname, tuple(other), e))
+    cfg = dict(cfg, dests=[d for d in cfg['dests'] if router.hasDestination(tuple(d))])
   elif rep.get('removed'):
     router.removeDestination(tuple(rep['removed']))
     if rep.get('readded'):
